@@ -46,8 +46,11 @@ def _has(t, prim) -> bool:
 
 
 def _has_app(v) -> bool:
+    """Value contains a lambda without a literal form in pytezos (partially applied, or recursive)."""
     if isinstance(v, tuple):
         if len(v) == 4 and v[0] == 'app':
+            return True
+        if len(v) == 2 and v[0] == 'lamrec':
             return True
         return any(_has_app(x) for x in v)
     return False
@@ -71,8 +74,24 @@ def _to_impl_struct(t, v):
         return cls([_to_impl_struct(t[1], x) for x in v])
     if p == 'map':
         return cls([(to_impl(t[1], k), _to_impl_struct(t[2], x)) for k, x in v])
+    if p == 'lambda' and v[0] == 'lamrec':
+        # pytezos has no Lambda_rec literal: obtain the value the way a program does, from the LAMBDA_REC instruction
+        from pytezos.context.impl import ExecutionContext
+        from pytezos.michelson.micheline import Micheline
+        from pytezos.michelson.stack import MichelsonStack
+        st = MichelsonStack()
+        ins = {'prim': 'LAMBDA_REC', 'args': [T.t_to_micheline(t[1]), T.t_to_micheline(t[2]), json.loads(v[1])]}
+        Micheline.match(ins).execute(st, [], ExecutionContext())
+        return st.items[0]
     if p == 'lambda' and v[0] == 'app':
-        raise ValueError('applied lambdas cannot be rebuilt; keep them on the stack by replaying')
+        # the implementation's own representation of a partially applied lambda: { PUSH ty v ; PAIR ; <body> }
+        from pytezos.michelson.micheline import Micheline
+        from pytezos.michelson.types import LambdaType
+        _, ct, cv, inner = v
+        inner_obj = _to_impl_struct(('lambda', ('pair', ct, t[1]), t[2]), inner)
+        code = [{'prim': 'PUSH', 'args': [T.t_to_micheline(ct), T.v_to_micheline(ct, cv)]}, {'prim': 'PAIR'},
+                inner_obj.value.as_micheline_expr()]
+        return mk_type(t)(Micheline.match(code))
     return mk_type(t).from_micheline_value(T.v_to_micheline(t, v, 'readable'))
 
 
